@@ -154,6 +154,7 @@ type runawayPanic struct{}
 
 // Host is the harness state attached to one LState.
 type Host struct {
+	keepOldContextAlive bool
 	// Source: the program text, for entry style 6 (DoString)
 	Source        string
 	goRuntimeSeen bool
@@ -286,10 +287,16 @@ func NewHost(o Options) *Host {
 	// (a no-op when no context is attached); the simulator then fires the new one
 	L.SetGlobal("reattach", L.NewFunction(func(L *lua.LState) int {
 		if h.Ctx != nil && !h.Ctx.Fired() {
+			old := h.Ctx
 			h.Ctx = NewSimContext()
 			L.SetContext(h.Ctx)
 			h.Reattached++
 			h.ReattachStep = h.Steps
+			// the replaced context ends (a host that gives every request its own context cancels the old one):
+			// nothing may listen to it any more
+			if !h.keepOldContextAlive {
+				old.Fire()
+			}
 		}
 		return 0
 	}))
@@ -362,9 +369,11 @@ func (h *Host) onDispatch(L *lua.LState) {
 func (h *Host) hostEnter(L *lua.LState) {
 	h.HostCalls++
 	if h.reattachAt > 0 && h.HostCalls == h.reattachAt && L == h.L && h.Ctx != nil && !h.Ctx.Fired() {
+		old := h.Ctx
 		h.Ctx = NewSimContext()
 		L.SetContext(h.Ctx)
 		h.Reattached++
+		old.Fire() // the replaced context ends; nothing may listen to it any more
 	}
 	h.checkUpvalues(L)
 	if !h.Fired && IsHostKind(h.Kind) && h.HostCalls == h.At {
